@@ -16,6 +16,25 @@ CHECKS = {
         "no divergence on the programs explored; it is not a proof over all programs.",
         "Trusted: the reference interpreter (hsverif/progmodel.py, ~300 lines), the probe wrappers around Event.invoke / EventHeap._push_single, CPython.",
     ),
+    "C02": (
+        "exploration",
+        "DESIGN.md 5/C02",
+        "runtime monitoring: per-process resume/hook/finish logs of generated process scripts in the real engine vs reference interpreter",
+        "Generated process scripts (three yield forms, yield from, futures resolved before/at/after the await, nested any_of/all_of, double "
+        "resolves, completion hooks) executed by the real engine and by the reference interpreter; resume instants and values, hook firings "
+        "and side-effect deliveries must match. Held on the scripts explored.",
+        "Trusted: the reference interpreter (hsverif/progmodel.py) including its reading of Instant+float truncation; each future awaited by one process.",
+    ),
+    "C04": (
+        "exploration",
+        "DESIGN.md 5/C04",
+        "runtime monitoring: differential delivery-log oracle (observed run vs unobserved run of the same model) plus step/breakpoint position monitors",
+        "Each generated program and a library pipeline (Source -> QueuedResource -> Sink with probes) is run unobserved and under 8-10 observation "
+        "modes (control, hooks, recorder, tracing, pause/step/resume scripts, five breakpoint kinds, combinations); logs, clocks, counters and "
+        "component statistics must be identical; step(n) counts and breakpoint pause positions are checked against the harness's own delivery "
+        "record; reset()+run() must repeat the sequence. Held on the (program, mode) pairs explored.",
+        "Trusted: the unobserved run in the same process as baseline; harness event hook for the breakpoint-position oracle.",
+    ),
     "C20": (
         "exploration",
         "DESIGN.md 5/C20",
